@@ -577,6 +577,10 @@ def run(ctx):
                   for sp in (SPECS[1], SPECS[3], wide)
                   for cpu in (1, 2, 3, None)
                   for single in (False, True)]
+        # more writers than one decimal digit counts
+        wide12 = [[("train", 1)], [("test", 2)], [("train", 2)]] * 4
+        vtasks += [("fb", wide12, cpu, single) for cpu in (None, 4)
+                   for single in (False, True)]
         nv = 0
         for r in ex.map(env_case, vtasks):
             if r["harness"]:
